@@ -23,6 +23,14 @@ int hx_worker_id;
 char hx_workdir[300];
 
 static const struct hx_harness *H;
+static FILE *hx_err(void)
+{
+  static FILE *f;
+  if (!f) f = fdopen(HARNESS_FD_BASE + 500, "w");
+  if (!f) f = stderr;
+  setvbuf(f, NULL, _IONBF, 0);
+  return f;
+}
 static double t_start, t_deadline;
 
 static double nowsec(void)
@@ -96,6 +104,18 @@ static void exec_child(long cfg)
   vk_finish(OUT_DONE, "ok");
 }
 
+static volatile pid_t watchdog_pid;
+static volatile int watchdog_fired;
+static void on_alarm(int sig)
+{
+  (void) sig;
+  if (watchdog_pid > 0) {
+    watchdog_fired = 1;
+    kill(-watchdog_pid, SIGKILL);
+    kill(watchdog_pid, SIGKILL);
+  }
+}
+
 /* runs one execution with the given prefix; S holds the result. Returns the outcome. */
 static int run_one(long cfg, const uint8_t *prefix, int plen, int verbose)
 {
@@ -128,23 +148,21 @@ static int run_one(long cfg, const uint8_t *prefix, int plen, int verbose)
   }
   if (pid == 0) exec_child(cfg);
   int status = 0;
-  /* watchdog: 60 s per execution */
-  double limit = nowsec() + 60;
+  /* watchdog: 60 s per execution, by interval timer (the handler kills the execution's process group) */
+  watchdog_pid = pid;
+  watchdog_fired = 0;
+  struct itimerval itv = { { 0, 0 }, { 60, 0 } }, off = { { 0, 0 }, { 0, 0 } };
+  setitimer(ITIMER_REAL, &itv, NULL);
   for (;;) {
-    pid_t r = waitpid(pid, &status, WNOHANG);
+    pid_t r = waitpid(pid, &status, 0);
     if (r == pid) break;
     if (r < 0 && errno != EINTR) break;
-    if (nowsec() > limit) {
-      kill(-pid, SIGKILL);
-      kill(pid, SIGKILL);
-      waitpid(pid, &status, 0);
-      S->outcome = OUT_INFRA;
-      snprintf(S->outcome_msg, sizeof S->outcome_msg, "watchdog: execution exceeded 60 s");
-      break;
-    }
-    /* short sleeps: executions take well under a millisecond */
-    struct timespec ts = { 0, 20000 };
-    nanosleep(&ts, NULL);
+  }
+  setitimer(ITIMER_REAL, &off, NULL);
+  watchdog_pid = 0;
+  if (watchdog_fired) {
+    S->outcome = OUT_INFRA;
+    snprintf(S->outcome_msg, sizeof S->outcome_msg, "watchdog: execution exceeded 60 s");
   }
   kill(-pid, SIGKILL); /* whatever the execution left behind */
   while (waitpid(-1, NULL, WNOHANG) > 0) {}
@@ -178,7 +196,7 @@ static void record_violation(long cfg, struct vk_violation *v)
   r->nchoices = S->ntrace;
   for (int i = 0; i < S->ntrace; i++) r->choices[i] = S->trace[i].chosen;
   r->count = 1;
-  r->log = strdup(S->log);
+  r->log = NULL;
   r->confirmed = -1;
 }
 
@@ -195,10 +213,10 @@ static void account(long cfg)
   for (int i = 0; i < VK_NCLAUSE; i++) st_clause_hits[i] += S->clause_hits[i];
   if (S->outcome == OUT_INFRA) {
     st_infra++;
-    fprintf(stderr, "[hx %s w%d] infrastructure error cfg=%ld: %s\n", H->prop, hx_worker_id, cfg, S->outcome_msg);
+    fprintf(hx_err(), "[hx %s w%d] infrastructure error cfg=%ld: %s\n", H->prop, hx_worker_id, cfg, S->outcome_msg);
     return;
   }
-  obs_add(S->obs_hash ^ ((uint64_t) S->outcome << 56));
+  obs_add(S->obs_hash ^ ((uint64_t) S->outcome << 56) ^ ((uint64_t) (cfg + 1) * 0xD6E8FEB86659FD93ull));
   if (S->outcome == OUT_CRASH) {
     st_crash++;
     struct vk_violation v;
@@ -253,15 +271,7 @@ static void explore_config(long cfg)
     run_one(cfg, nd.choices, nd.len, 0);
     execs++;
     account(cfg);
-    if (nsamples < 3 && hx_worker_id == 0 && (execs == 1 || (execs == 7 && S->ntrace > 0)) && S->outcome != OUT_INFRA) {
-      struct sample *sm = &samples[nsamples++];
-      sm->cfg = cfg;
-      snprintf(sm->desc, sizeof sm->desc, "%s", S->cfgdesc);
-      sm->nchoices = S->ntrace;
-      for (int i = 0; i < S->ntrace; i++) sm->choices[i] = S->trace[i].chosen;
-      sm->log = strdup(S->log);
-      sm->outcome = S->outcome;
-    }
+    int want_sample = nsamples < 3 && hx_worker_id == 0 && (execs == 1 || (execs == 7 && S->ntrace > 0)) && S->outcome != OUT_INFRA;
     if (S->outcome == OUT_INFRA) {
       free(nd.choices);
       continue;
@@ -279,9 +289,22 @@ static void explore_config(long cfg)
       st_replay_checked++;
       if (S->obs_hash != h || S->outcome != oc || S->ntrace != ntrace) {
         st_replay_mismatch++;
-        fprintf(stderr, "[hx %s] replay mismatch cfg=%ld (obs %llx vs %llx, outcome %d vs %d, trace %d vs %d)\n", H->prop,
+        fprintf(hx_err(), "[hx %s] replay mismatch cfg=%ld (obs %llx vs %llx, outcome %d vs %d, trace %d vs %d)\n", H->prop,
                 cfg, (unsigned long long) h, (unsigned long long) S->obs_hash, oc, S->outcome, ntrace, S->ntrace);
       }
+    }
+    if (want_sample) {
+      /* run the same choice sequence again with logging on, to have something readable in the evidence */
+      uint8_t full[VK_MAX_TRACE];
+      for (int i = 0; i < ntrace; i++) full[i] = tr[i].chosen;
+      run_one(cfg, full, ntrace, 1);
+      struct sample *sm = &samples[nsamples++];
+      sm->cfg = cfg;
+      snprintf(sm->desc, sizeof sm->desc, "%s", S->cfgdesc);
+      sm->nchoices = S->ntrace;
+      for (int i = 0; i < S->ntrace; i++) sm->choices[i] = S->trace[i].chosen;
+      sm->log = strdup(S->log);
+      sm->outcome = S->outcome;
     }
     for (int k = 0; k < K_NKINDS; k++) st_bounds[k] = 0;
     /* expand: alternatives at points beyond the prefix, within the per-kind budgets */
@@ -428,6 +451,12 @@ int main(int argc, char **argv)
   }
   /* the worker must not depend on what the caller left open */
   signal(SIGPIPE, SIG_IGN);
+  {
+    struct sigaction sa;
+    memset(&sa, 0, sizeof sa);
+    sa.sa_handler = on_alarm;
+    sigaction(SIGALRM, &sa, NULL);
+  }
   prctl(PR_SET_CHILD_SUBREAPER, 1);
   struct rlimit rl;
   if (getrlimit(RLIMIT_NOFILE, &rl) == 0) {
@@ -454,9 +483,12 @@ int main(int argc, char **argv)
     if (argc >= 8 && atof(argv[7]) > 0) t_deadline = t_start + atof(argv[7]);
     if (getenv("HX_MAX_EXEC")) max_exec_per_config = atol(getenv("HX_MAX_EXEC"));
     setup_scratch();
+    hx_worker_prepare();
     if (H->worker_init) H->worker_init(hx_tier);
     long ncfg = H->nconfigs(hx_tier);
-    for (long c = shard; c < ncfg; c += nshards) {
+    for (long c = 0; c < ncfg; c++) {
+      /* scatter configurations over the shards so that heavy neighbours do not pile up on one worker */
+      if ((long) ((((uint64_t) c * 0x9E3779B97F4A7C15ull) >> 33) % (uint64_t) nshards) != shard) continue;
       if (t_deadline > 0 && nowsec() > t_deadline) break;
       explore_config(c);
     }
@@ -469,6 +501,7 @@ int main(int argc, char **argv)
       for (int k = 0; k < S->nviol; k++)
         if (!strcmp(S->viol[k].prop, r->v.prop) && !strcmp(S->viol[k].clause, r->v.clause)) ok = 1;
       r->confirmed = ok;
+      r->log = strdup(S->log);
       if (!ok) st_unconfirmed++;
     }
     write_stats(out, ncfg, shard, nshards, nowsec() - t_start);
@@ -493,8 +526,11 @@ int main(int argc, char **argv)
     }
     hx_worker_id = 0;
     setup_scratch();
+    int out_fd = fcntl(1, F_DUPFD_CLOEXEC, HARNESS_FD_BASE + 600);
+    hx_worker_prepare();
     if (H->worker_init) H->worker_init(hx_tier);
     run_one(cfg, ch, n, 1);
+    dup2(out_fd, 1);
     printf("config: %s\n", S->cfgdesc);
     fputs(S->log, stdout);
     printf("outcome=%d (%s) trace=%d obs=%016llx\n", S->outcome, S->outcome_msg, S->ntrace, (unsigned long long) S->obs_hash);
